@@ -799,9 +799,14 @@ def check_C02(ctx):
     pathcodec_cases(ctx, 6 if thorough else 5, "degree", cases)          # b-splines of different degree next to each other
     summ = harness(ctx, ["pathcodec", "replay", "--prop", "C02"], cases_file=cases, name="pathcodec", timeout=3600)
     report_mismatches(ctx, summ, "a slider path does not survive decode -> encode -> decode (outside the listed shapes)")
-    # (2) hit samples (model level: names and banks survive for every bank info x sound x sample point x mania)
+    # (2) hit samples: names and banks survive for every bank info x sound byte x sample point x mania; every case is replayed:
+    #     the hit-sound byte and bank info the encoder writes, and what the second decode makes of them
+    scases = os.path.join(ctx.work, "samplecodec.ndjson")
     tlc(ctx, "SampleCodec", "MC_SampleCodec", dict(spec="Spec", invariants=["EncodedAccepted", "NamesAndBanksSurvive", "NodeNamesAndBanksSurvive"],
-        constants=dict(Dummy="0")), workers=14, timeout=1800)
+        constants=dict(Dummy="1")), workers=14, timeout=1800, cases_file=scases)
+    summ = harness(ctx, ["samplecodec", "replay"], cases_file=scases, name="samplecodec", timeout=3600)
+    report_mismatches(ctx, summ, "the encoder's hit-sound byte / bank info differ from SampleCodec, or sample names and banks do not survive")
+    os.remove(scases)
     # (3) timing points: encoder transcription composed with the decoder
     plan = [("AlphaVel", "GensModes", 3), ("AlphaAll", "GensTwo", 2)] if thorough else [("AlphaVel", "GensModes", 2), ("AlphaEff", "GensTwo", 2)]
     for (a, g, n) in plan:
